@@ -1,6 +1,38 @@
 # Per-property run configuration for ./check. "quick"/"thorough" are case counts for rapid tests
 # (thorough counts are split over the shards) or the VERIF_N value handed to plain tests.
 CONFIG = {
+    "C04": {
+        "level": "exploration",
+        "level_text": "generated conflict-free messages built from association patterns (who carries the link, how the vehicle is identified, entity order) plus an exhaustive pattern x permutation table; the parsed cross references are followed on the real structs and compared with a reference association model",
+        "level_note": "content equality (not pointer identity) is what the statement promises and what is checked; empty vehicle descriptors inside trip updates are outside the domain",
+        "technique": "property-based testing (rapid) against a reference association model + exhaustive small-pattern enumeration over all entity permutations",
+        "tests": [{"name": "TestC04", "quick": 15000, "thorough": 1600000}, {"name": "TestC04Patterns", "kind": "plain", "quick": 1, "thorough": 1}],
+        "assumptions": ["each trip is associated with at most one vehicle and vice versa (the property's domain)"],
+    },
+    "C07": {
+        "level": "exploration",
+        "level_text": "metamorphic: every permutation (all n! up to 4 entities, sampled beyond) of generated conflict-free messages must give the same trips, vehicles, links and relatively ordered alerts, and agree with the reference model so the own entity's data wins; invariant: uniqueness and sortedness on arbitrary messages with conflicting duplicates; algebraic: TripID.Less is a strict total order",
+        "level_note": "sortedness is checked with the library's own TripID.Less plus the primary key ID.ID; order-independence only over conflict-free messages as the statement says",
+        "technique": "property-based metamorphic testing over entity permutations (rapid) + invariant checks on arbitrary messages + order-law check",
+        "tests": [{"name": "TestC07Perm", "quick": 2500, "thorough": 320000}, {"name": "TestC07Any", "quick": 10000, "thorough": 1600000}, {"name": "TestC07Less", "quick": 20000, "thorough": 1600000}],
+        "assumptions": [],
+    },
+    "C12": {
+        "level": "exploration",
+        "level_text": "generated alerts over the combinatorial selector space compared with a reference normalisation written from the statement; where the statement is silent (routes named by partial descriptors, order of route-level entities) the oracle accepts every reading",
+        "level_note": "presence of a string field means non-empty; the route-level entities are compared as a set",
+        "technique": "property-based testing (rapid) against a reference normalisation + output-only validity predicates",
+        "tests": [{"name": "TestC12", "quick": 25000, "thorough": 3200000}],
+        "assumptions": [],
+    },
+    "C02": {
+        "level": "exploration",
+        "level_text": "generated conflict-free messages rendered from a typed model through the real protobuf encoder, parsed with every zone option class, and compared field by field against an independent reference transcription; exploration because the claim is every field x presence pattern x zone over an unbounded message space",
+        "level_note": "trusts Go's time package for zone arithmetic and the generated protobuf encoder; start dates avoid days without a unique local midnight; timestamps >= 2^63, NaN/Inf coordinates, multi-payload entities and empty vehicle descriptors are outside the generator (inside C05's)",
+        "technique": "property-based testing (rapid) against a reference model of the transcription",
+        "tests": [{"name": "TestC02", "quick": 20000, "thorough": 1600000}],
+        "assumptions": ["presence of a string field means non-empty", "proto-declared enum defaults count as absent"],
+    },
     "C13": {
         "level": "exploration",
         "level_text": "generated pairs of trips/vehicles over a deliberately small value domain (so data-equal pairs are common), with a catalogue of single-field, nil-vs-zero, boundary-shift and count edits at any stop-time-update index; the recorded hash input stream must be equal exactly when the harness's structural equality says the data is equal. Exploration: injectivity is a statement about all pairs, sampled densely where encodings are typically ambiguous",
